@@ -609,6 +609,10 @@ func (b Browse) ServeArchive(w http.ResponseWriter, r *http.Request, dirPath str
 			return nil // Skip the containing directory
 		}
 
+		if bc.Fs.IsHidden(info) {
+			return nil // Hidden files are not part of the archive either
+		}
+
 		var file io.ReadCloser
 		if info.Mode().IsRegular() {
 			file, err = bc.Fs.Root.Open(path)
